@@ -1550,7 +1550,7 @@ class Explorer:
             if raw[0] == "arr" and len(raw[1]) <= 32 and nm in ("iter", "contains") and "slice" in path:
                 a0 = self.cseq_new(st, "arr", list(raw[1]))
             elif raw[0] == "arriter" and nm in ("map", "filter", "flat_map", "filter_map", "flatten", "copied", "cloned", "enumerate", "sum", "count",
-                                               "all", "any", "find", "position", "for_each", "try_for_each", "collect"):
+                                               "all", "any", "find", "position", "for_each", "try_for_each", "collect", "fold", "try_fold", "chain"):
                 cs = self.cseq_new(st, "arr", list(raw[1]))
                 a0 = ("citer", cs[1], cs[2], raw[2], (), False)
         if a0 is None:
@@ -1609,6 +1609,20 @@ class Explorer:
                 return fin(st, stack, ("ref", root, (("ci", args[1][1]),)))
             if nm in ("clone", "to_vec", "to_owned"):
                 return fin(st, stack, a0)
+            if nm in ("sort", "sort_unstable") and len(args) == 1:
+                # a list of known integers: sorted in place
+                vals = [self.read_loc(st, root, (("ci", i),)) for i in range(n)]
+                if all(v_[0] == "c" and isinstance(v_[1], int) for v_ in vals):
+                    for i, v_ in enumerate(sorted(vals, key=lambda x_: x_[1])):
+                        st.heap[(root, (("ci", i),))] = v_
+                    return fin(st, stack, UNIT())
+                return None
+            if nm == "windows" and len(args) == 2 and args[1][0] == "c" and isinstance(args[1][1], int) and args[1][1] >= 1:
+                w_ = args[1][1]
+                vals = [self.read_loc(st, root, (("ci", i),)) for i in range(n)]
+                wins = [("arr", tuple(vals[i:i + w_])) for i in range(0, max(n - w_ + 1, 0))]
+                cs = self.cseq_new(st, "windows", wins)
+                return fin(st, stack, ("citer", cs[1], cs[2], 0, (), True))
             if nm == "contains" and len(args) == 2:
                 # membership in a list of concrete values: decided element by element (derived equality)
                 x = self.deref(st, args[1]) if args[1][0] == "ref" else args[1]
@@ -1727,6 +1741,75 @@ class Explorer:
                     return resume(s2, k2)
                 return self.cseq_call_closure(s_, k_, clo, [v], after)
             return self.cseq_drive(st, stack, a0, on_item_t, lambda s_, k_: fin(s_, k_, AGG(RES, "Ok", (UNIT(),))))
+        if nm == "chain" and len(args) == 2:
+            # a.chain(b) with a an iteration over known items: the items of a, then those of b - a vector of tracked words
+            # contributes its words, a nested serialisation (`x.to_buffers()`) stays one nested item
+            tail = self.deref(st, args[1]) if args[1][0] == "ref" else args[1]
+            tl = None
+            if tail[0] == "vec":
+                tl = list(tail[1])
+            elif tail[0] == "sym":
+                tt = self.interned_rev.get(tail[1][1], tail[1]) if (len(tail[1]) == 2 and tail[1][0] == "#") else tail[1]
+                if isinstance(tt, tuple) and tt and tt[0] == "call" and tt[1].split("::")[-1] in ("to_buffers", "to_continuous_buffer"):
+                    tl = [("nested", tail)]
+            if tl is not None:
+                boxc = []
+                keyc = (("CS", "chain", id(boxc)), ())
+
+                def on_item_ch(s_, k_, v, resume):
+                    s_.heap[keyc] = ("tup", s_.heap.get(keyc, ("tup", ()))[1] + (v,))
+                    return resume(s_, k_)
+
+                def on_end_ch(s_, k_):
+                    items = list(s_.heap.pop(keyc, ("tup", ()))[1]) + tl
+                    cs = self.cseq_new(s_, "chain", items)
+                    return fin(s_, k_, ("citer", cs[1], cs[2], 0, (), False))
+                return self.cseq_drive(st, stack, a0, on_item_ch, on_end_ch)
+        if nm in ("fold", "try_fold") and len(args) == 3:
+            # the accumulator travels in the state (forks carry their own copy): init, then the closure's previous result;
+            # try_fold stops at the first Err / None the closure returns
+            clo = args[2]
+            boxf = []
+            keyf = (("CS", "fold", id(boxf)), ())
+            st.heap[keyf] = args[1]
+            RES = "std::result::Result"
+            is_try = (nm == "try_fold")
+
+            def on_item_fd(s_, k_, v, resume):
+                def after(s2, k2, rv):
+                    if not is_try:
+                        s2.heap[keyf] = rv
+                        return resume(s2, k2)
+                    if rv[0] == "agg" and rv[1] in (RES, OPT):
+                        if rv[2] in ("Ok", "Some"):
+                            s2.heap[keyf] = rv[3][0]
+                            return resume(s2, k2)
+                        s2.heap.pop(keyf, None)
+                        return fin(s2, k2, rv)
+                    if rv[0] == "sym":
+                        s3 = s2.clone()
+                        k3 = self.clone_stack(k2)
+                        dt = ("discr", rv[1], RES)
+                        if self.constrain(s3, dt, "eq", self.variant_discr(RES, "Err")):
+                            s3.heap.pop(keyf, None)
+                            r3 = fin(s3, k3, AGG(RES, "Err", (SYM(self.cap(("field", rv[1], 0))),)))
+                            if r3 != "stop":
+                                self.work.append((s3, k3))
+                        if self.constrain(s2, dt, "eq", self.variant_discr(RES, "Ok")):
+                            s2.heap[keyf] = SYM(self.cap(("field", rv[1], 0)))
+                            return resume(s2, k2)
+                        self.finish_path(s2, None, "diverge")
+                        return "stop"
+                    s2.heap[keyf] = rv
+                    return resume(s2, k2)
+                return self.cseq_call_closure(s_, k_, clo, [s_.heap.get(keyf, args[1]), v], after)
+
+            def on_end_fd(s_, k_):
+                acc = s_.heap.pop(keyf, args[1])
+                if is_try and any(isinstance(t_, str) and t_.startswith("std::option::Option<") for t_ in (info.get("targs") or [])[-1:]):
+                    return fin(s_, k_, AGG(OPT, "Some", (acc,)))       # R = Option<B>
+                return fin(s_, k_, AGG(RES, "Ok", (acc,)) if is_try else acc)
+            return self.cseq_drive(st, stack, a0, on_item_fd, on_end_fd)
         if nm == "sum":
             box = []
 
@@ -1748,8 +1831,22 @@ class Explorer:
 
             to_words = any(t.startswith("std::vec::Vec<") and tracked_elem(t[len("std::vec::Vec<"):-1]) for t in info.get("targs", []))
 
+            res_vec = any(isinstance(t, str) and t.startswith("std::result::Result<std::vec::Vec<") for t in (info.get("targs") or []))
+
             def on_end_c(s_, k_):
                 items = s_.heap.pop((("CS", "col", id(box)), ()), ("tup", ()))[1]
+                if res_vec:
+                    # collect::<Result<Vec<_>, E>>(): the first Err, else Ok(the payloads) - decided when every item is
+                    RES_ = "std::result::Result"
+                    pay = []
+                    for it_ in items:
+                        iv_ = self.deref(s_, it_) if it_[0] == "ref" else it_
+                        if not (iv_[0] == "agg" and iv_[1] == RES_):
+                            return fin(s_, k_, SYM(self.cap(("call", "std::iter::Iterator::collect", (self.cseq_new(s_, "collect", list(items)),)))))
+                        if iv_[2] == "Err":
+                            return fin(s_, k_, iv_)
+                        pay.append(iv_[3][0])
+                    return fin(s_, k_, AGG(RES_, "Ok", (self.cseq_new(s_, "collect", pay),)))
                 if to_words:
                     return fin(s_, k_, ("vec", tuple(items)))        # bytes / IoSlices / events: the word representation
                 return fin(s_, k_, self.cseq_new(s_, "collect", list(items)))
@@ -2770,7 +2867,7 @@ class Explorer:
                 "std::option::Option::<T>::filter": ("opt", "filter")}
         if p in COMB and self.closure_of(st, args[-1]) is not None and self.closure_of(st, args[-1])[1] in self.F.fns:
             return self.combinator(st, stack, fr, COMB[p], args, t, site, info, path)
-        if p in COMB and self.fn_item_of(st, args[-1]) is not None and p != "std::option::Option::<T>::map_or_else":
+        if p in COMB and self.fn_item_of(st, args[-1]) is not None:
             return self.combinator(st, stack, fr, COMB[p], args, t, site, info, path)
         if p in ("std::option::Option::<T>::map", "std::result::Result::<T, E>::map") and len(args) == 2 and args[1][0] == "fn":
             # x.map(f) with a function item: the variant is the receiver's, the payload is f(payload)
@@ -2829,7 +2926,17 @@ class Explorer:
                   "is_some_and": "Some", "is_none_or": "Some", "is_ok_and": "Ok", "is_err_and": "Err", "or_else": "None",
                   "unwrap_or_else_r": "Err", "and_then_r": "Ok", "filter": "Some"}.get(name)
         if name == "map_or_else":
-            return None      # two closures: left opaque
+            # opt.map_or_else(default, f): the last argument maps the payload, the one before it produces the value for None
+            if len(args) != 3:
+                return None
+            dflt = args[1]
+            d_clo = self.closure_of(st, dflt)
+            d_fn = None if d_clo is not None else self.fn_item_of(st, dflt)
+            if d_clo is None and d_fn is None:
+                return None
+            if d_clo is not None and d_clo[1] not in self.F.fns:
+                return None
+            run_on = "Some"
 
         def passthrough(v, variant):
             if name == "map_or":
@@ -2849,7 +2956,7 @@ class Explorer:
 
         def wrap(retv):
             if name in ("map_or", "and_then", "unwrap_or_else", "is_some_and", "is_none_or", "is_ok_and", "is_err_and", "or_else",
-                        "unwrap_or_else_r", "and_then_r"):
+                        "unwrap_or_else_r", "and_then_r", "map_or_else"):
                 return retv
             if name == "map":
                 return AGG(adt, "Some" if fam == "opt" else "Ok", (retv,))
@@ -2866,6 +2973,44 @@ class Explorer:
             s2 = st.clone() if len(cases) > 1 else st
             k2 = self.clone_stack(stack) if len(cases) > 1 else stack
             if recv[0] == "sym" and not self.constrain(s2, ("discr", recv[1], adt), "eq", self.variant_discr(adt, variant)):
+                continue
+            if variant != run_on and name == "map_or_else":
+                # run the default producer
+                def cont_d(st3, stack3, retv, dest=dest, target=target):
+                    ex_.write_place(st3, stack3[-1], dest, retv, site)
+                    if target is None:
+                        ex_.finish_path(st3, None, "diverge")
+                        return "stop"
+                    stack3[-1].bb = target
+                    return None
+                ex_ = self
+                if d_clo is not None:
+                    self.enter(s2, k2, k2[-1], self.F.fns[d_clo[1]], [dflt], None, None, cont_d, closure=True)
+                    alts.append((s2, k2))
+                    continue
+                dcallee = self.F.fns.get(d_fn)
+                dinfo = {"path": d_fn, "name": d_fn.split("::")[-1], "targs": list(dflt[2]) if (dflt[0] == "fn" and len(dflt) > 2 and dflt[2]) else [],
+                         "local": dcallee is not None, "impl_self": (dcallee or {}).get("impl_self", "")}
+                if dcallee is not None and self.inline_pred(self, dcallee, dinfo) and len(k2) < 12:
+                    self.enter(s2, k2, k2[-1], dcallee, [], None, None, cont_d)
+                    alts.append((s2, k2))
+                    continue
+                outs = self.std_fn_item_values(s2, k2, dinfo, [], site) if dcallee is None else None
+                if outs is not None:
+                    for (s4, k4, v4) in outs:
+                        self.write_place(s4, k4[-1], dest, v4, site)
+                        if target is None:
+                            continue
+                        k4[-1].bb = target
+                        alts.append((s4, k4))
+                    continue
+                rv = SYM(self.cap(("call", d_fn, ())))
+                s2.effects.append(("call", d_fn, (), (), rv, site))
+                self.write_place(s2, k2[-1], dest, rv, site)
+                if target is None:
+                    continue
+                k2[-1].bb = target
+                alts.append((s2, k2))
                 continue
             if variant != run_on:
                 self.write_place(s2, k2[-1], dest, passthrough(recv, variant), site)
